@@ -221,6 +221,35 @@ impl Run<'_> {
     }
 }
 
+/// `k` collectors named m, told apart by the constant label `shard`, each holding one sample, in one registry.
+fn siblings_case(prefix: Option<&str>, labels: &[(&str, &str)], k: usize, vec_kind: bool) -> Result<(), String> {
+    let lm: Option<HashMap<String, String>> = if labels.is_empty() { None } else { Some(labels.iter().map(|(k, v)| (k.to_string(), v.to_string())).collect()) };
+    let reg = Registry::new_custom(prefix.map(|s| s.to_string()), lm).map_err(|e| format!("new_custom: {}", e))?;
+    for i in 0..k {
+        let opts = prometheus::Opts::new("m", "h").const_label("shard", format!("s{}", i));
+        if vec_kind {
+            let v = prometheus::CounterVec::new(opts, &["zone"]).map_err(|e| e.to_string())?;
+            v.with_label_values(&["z"]).inc();
+            reg.register(Box::new(v)).map_err(|e| format!("register sibling {}: {}", i, e))?;
+        } else {
+            let c = prometheus::Counter::with_opts(opts).map_err(|e| e.to_string())?;
+            c.inc();
+            reg.register(Box::new(c)).map_err(|e| format!("register sibling {}: {}", i, e))?;
+        }
+    }
+    let mfs = reg.gather();
+    let n: usize = mfs.iter().map(|mf| mf.get_metric().len()).sum();
+    if n != k {
+        return Err(format!("{} samples gathered from {} collectors", n, k));
+    }
+    // gathered twice: nothing accumulates from one gather to the next
+    let again = reg.gather();
+    if let Some(d) = check_gathered(&mfs).or_else(|| check_gathered(&again)) {
+        return Err(d);
+    }
+    Ok(())
+}
+
 fn spec_from_json(v: &serde_json::Value) -> Spec {
     let s = |k: &str| v[k].as_str().unwrap_or("").to_string();
     Spec {
@@ -240,6 +269,17 @@ fn main() {
     let thorough = args.tier == Tier::Thorough;
     if let Some(p) = &args.replay {
         let doc = read_replay(p);
+        if doc["part"] == "siblings" {
+            let labels: Vec<(String, String)> = doc["labels"].as_array().unwrap().iter().map(|p| (p[0].as_str().unwrap().to_string(), p[1].as_str().unwrap().to_string())).collect();
+            let lr: Vec<(&str, &str)> = labels.iter().map(|(a, b)| (a.as_str(), b.as_str())).collect();
+            let r = catch(|| siblings_case(doc["prefix"].as_str(), &lr, doc["k"].as_u64().unwrap() as usize, doc["vec"].as_bool().unwrap()));
+            println!("replay: siblings -> {:?}", r);
+            if matches!(r, Ok(Ok(()))) {
+                std::process::exit(0);
+            }
+            println!("VIOLATION property=C09 replay={}", p);
+            std::process::exit(1);
+        }
         let c = CTORS.iter().find(|c| format!("{:?}", c) == doc["ctor"].as_str().unwrap()).cloned().unwrap();
         let spec = spec_from_json(&doc["spec"]);
         let mut sub = Report::new("C09", &args);
@@ -269,7 +309,7 @@ fn main() {
     let s2 = strings(2);
     let s1 = strings(1);
     rep.rule = format!(
-        "strings of length 0..=3 (thorough: 4 for three representative constructors) over the character pool {:?}: every string as metric name through 12 constructors; all (namespace|subsystem, name) pairs of strings of length<=2 (quick: namespace/subsystem length<=1); every string (len<=3) as constant and as variable label name; every assignment of <=2 constant and <=2 variable label names from {{a,b,le}} for all 12 constructors; help in {{\"\",h}}; Registry::new_custom with every string (len<=3) as prefix, every string (len<=2) as common-label name, and common labels from {{a,b,le}} against metrics using the same names. Every accepted metric is registered, sampled and gathered; gathered names are validated. distinct = distinct (part, constructor, accept/reject, outcome) classes",
+        "strings of length 0..=3 (thorough: 4 for three representative constructors) over the character pool {:?}: every string as metric name through 12 constructors; all (namespace|subsystem, name) pairs of strings of length<=2 (quick: namespace/subsystem length<=1); every string (len<=3) as constant and as variable label name; every assignment of <=2 constant and <=2 variable label names from {{a,b,le}} for all 12 constructors; help in {{\"\",h}}; Registry::new_custom with every string (len<=3) as prefix, every string (len<=2) as common-label name, and common labels from {{a,b,le}} against metrics using the same names; 2-3 collectors contributing to one family (same name, told apart by a constant label) in registries with 0-2 common labels, gathered twice. Every accepted metric is registered, sampled and gathered; gathered names are validated. distinct = distinct (part, constructor, accept/reject, outcome) classes",
         CHARS
     );
     rep.bounds = json!({"chars": CHARS.iter().map(|c| c.to_string()).collect::<Vec<_>>(), "name_len": 3, "pair_len": if thorough {2} else {1}, "label_names": ["a","b","le"]});
@@ -458,6 +498,37 @@ fn main() {
                 }
                 let labels: Vec<(&str, &str)> = rl.iter().map(|k| (*k, "r")).collect();
                 run.registry(None, &labels, c, &spec, "common-label-clash");
+            }
+        }
+    }
+    // (f) several collectors contributing to one family (same name, told apart by a constant label), 1..3 of them
+    // holding a sample, in a registry with 0..2 common labels and with / without a prefix
+    drop(run);
+    for prefix in [None, Some("p")] {
+        for rl in &lists {
+            if rl.len() == 2 && rl[0] == rl[1] {
+                continue;
+            }
+            for k in 2..=3usize {
+                for vec_kind in [false, true] {
+                    rep.evaluations += 1;
+                    rep.transitions += (2 * k + 2) as u64;
+                    let labels: Vec<(&str, &str)> = rl.iter().map(|k| (*k, "r")).collect();
+                    let r = watchdog::case(|| format!("siblings prefix={:?} labels={:?} k={}", prefix, labels, k), || catch(|| siblings_case(prefix, &labels, k, vec_kind)));
+                    let r = match r {
+                        Ok(r) => r,
+                        Err(p) => Err(format!("panicked: {}", p)),
+                    };
+                    match r {
+                        Ok(()) => rep.outcome(format!("siblings|{:?}|{}|{}|{}", prefix, rl.len(), k, vec_kind)),
+                        Err(d) if rl.contains(&"shard") || rl.contains(&"zone") => rep.outcome(format!("siblings-refused|{}", d.len().min(1))),
+                        Err(d) => rep.violation(
+                            format!("siblings:{}", if d.contains("twice") { "label-name-twice" } else { "other" }),
+                            format!("registry(prefix={:?}, common labels {:?}) with {} {} named m told apart by a constant label: {}", prefix, labels, k, if vec_kind { "counter vectors" } else { "counters" }, d),
+                            json!({"engine":"enum","part":"siblings","prefix": prefix, "labels": labels, "k": k, "vec": vec_kind, "detail": d}),
+                        ),
+                    }
+                }
             }
         }
     }
